@@ -473,6 +473,12 @@ fn rejection(r: &mut Report) {
     for q in cv.iter() { v.push(p3(q.x + 20.0, q.y, q.z)); }
     for t in cf.iter() { f.push([t[0] + off, t[1] + off, t[2] + off]); }
     check_rejected(r, "", "3x3 grid disk and a separate closed torus (one boundary loop, V - E + F = 1, two pieces)", v, f);
+    // ONE boundary loop, one piece, yet V - E + F = 2: a disk whose vertex list carries vertices no face references (round 7)
+    for extra in [1usize, 3] {
+        let (mut v, f) = (flat3(&disk), disk.faces.clone());
+        for k in 0..extra { v.push(p3(10.0 + k as f64, 10.0, 0.0)); }
+        check_rejected(r, "", &format!("3x3 grid disk with {} unreferenced vertices appended (one boundary loop, V - E + F = {})", extra, 1 + extra), v, f);
+    }
     // a Moebius strip: one boundary loop, one piece, V - E + F = 0, not orientable
     let n = 9usize;
     let mut mv = Vec::new();
@@ -689,7 +695,7 @@ fn check_uv_sequences(r: &mut Report, w: &mut Worst, name: &str, verts: &[Point3
 
 // ------------------------------------------------------------------------------------------------ driver
 pub fn run() -> Option<Report> {
-    let mut r = Report::new("TESTING-GRADE (no clause here is deduction). Planar disks: jittered grids (jitter <= 0.2 pitch; diagonals fixed / alternating / LCG / locally Delaunay) 3x3, 6x5, 15x15 (256 vertices) [thorough: 30x30], L 6x6 and 12x10, U 9x6, plus 9x9, polar fan 7, polar 3x10 and 6x16 round and star, [thorough: 10x40], strips 2x2..2x12 / single triangle / two-triangle square (no inner vertex), each in 3 vertex numberings x 2 face storages x CCW/CW (small meshes all combinations, large ones a fixed subset), scales 1, 1e-3, 1e3, 5 poses (translations up to 2e3, any rotation): Ok, one finite position per vertex, every edge length and triangle area kept to relative 2e-5 / 8e-5, every triangle positively oriented, result = input shape under ONE proper planar rigid motion (residual <= 1e-5 diameter), boundary loop stored from 2..3 different start vertices per variant and once as calc_edges leaves it. Curved disks (spherical caps of half angle 0.5 and 1.2 rad, saddle, half cylinder on jittered grids and polar meshes, up to 256 vertices): 4 poses, a repeated call, scale 0.125 and 1000: result unchanged up to a proper planar rigid motion (and the scale) within 1e-9 diameter for the same stored boundary loop, 2e-5 for a loop stored from another start vertex. A planar disk with one zero-area face (own clause). Rejection under a 4 s watchdog: closed box / tetrahedron, annulus, two holes, two separate disks, two fins, disk + closed box, torus with a hole; last, under a 2 s watchdog, two triangles sharing only a vertex. UV round trip: flattening results of 4 planar and 3 curved disks and 2 hand-made sheared UV maps, every face x 10 weights (4 interior, 3 edge, 3 vertex): point / uv_to_3d / uv_with_tol to 1e-9 of the size. WAVE 5 (parameter-space audit): planar disks of extent 1e-9 .. 1e7 (scales 1e-9, 1e-7, 1e-6, 1e-5, 1e4, 1e6), a 40 x 40 grid (1681 vertices), unjittered grids / hexagon fan (exact right angles, equal edges); needle and cap triangles of aspect 1000 : 1 (stretched grids and polar mesh, one thin column / row, a vertex 0.001 off an edge: |cot| = 1000) and a single 3000 : 1 face; rejection of a disk + separate closed torus (one loop, V - E + F = 1) and of a Moebius strip; every UV sample again posed 1.2e4 / 1.7e6 from the origin, UV maps moved 1e4 / 1e6 in UV space, uv_with_tol with angle tolerances pi / 0.3 / 0.02, search distance 1e3 sizes, and the query given in another frame (Some(transform)); curved disks also scaled by 1e-6 / 1e5; on every sample: clone, is_solid = true, new_with_options, Mesh::transform far away / there and back, append of and to a mesh without UV map, append of itself, the same append twice -- a mesh that carries a UV map afterwards maps a point of EVERY face to uv and back (no panic)");
+    let mut r = Report::new("TESTING-GRADE (no clause here is deduction). Planar disks: jittered grids (jitter <= 0.2 pitch; diagonals fixed / alternating / LCG / locally Delaunay) 3x3, 6x5, 15x15 (256 vertices) [thorough: 30x30], L 6x6 and 12x10, U 9x6, plus 9x9, polar fan 7, polar 3x10 and 6x16 round and star, [thorough: 10x40], strips 2x2..2x12 / single triangle / two-triangle square (no inner vertex), each in 3 vertex numberings x 2 face storages x CCW/CW (small meshes all combinations, large ones a fixed subset), scales 1, 1e-3, 1e3, 5 poses (translations up to 2e3, any rotation): Ok, one finite position per vertex, every edge length and triangle area kept to relative 2e-5 / 8e-5, every triangle positively oriented, result = input shape under ONE proper planar rigid motion (residual <= 1e-5 diameter), boundary loop stored from 2..3 different start vertices per variant and once as calc_edges leaves it. Curved disks (spherical caps of half angle 0.5 and 1.2 rad, saddle, half cylinder on jittered grids and polar meshes, up to 256 vertices): 4 poses, a repeated call, scale 0.125 and 1000: result unchanged up to a proper planar rigid motion (and the scale) within 1e-9 diameter for the same stored boundary loop, 2e-5 for a loop stored from another start vertex. A planar disk with one zero-area face (own clause). Rejection under a 4 s watchdog: closed box / tetrahedron, annulus, two holes, two separate disks, two fins, disk + closed box, torus with a hole; last, under a 2 s watchdog, two triangles sharing only a vertex. UV round trip: flattening results of 4 planar and 3 curved disks and 2 hand-made sheared UV maps, every face x 10 weights (4 interior, 3 edge, 3 vertex): point / uv_to_3d / uv_with_tol to 1e-9 of the size. WAVE 5 (parameter-space audit): planar disks of extent 1e-9 .. 1e7 (scales 1e-9, 1e-7, 1e-6, 1e-5, 1e4, 1e6), a 40 x 40 grid (1681 vertices), unjittered grids / hexagon fan (exact right angles, equal edges); needle and cap triangles of aspect 1000 : 1 (stretched grids and polar mesh, one thin column / row, a vertex 0.001 off an edge: |cot| = 1000) and a single 3000 : 1 face; rejection of a disk + separate closed torus (one loop, V - E + F = 1), of a disk with 1 / 3 unreferenced vertices (V - E + F = 2 / 4) and of a Moebius strip; every UV sample again posed 1.2e4 / 1.7e6 from the origin, UV maps moved 1e4 / 1e6 in UV space, uv_with_tol with angle tolerances pi / 0.3 / 0.02, search distance 1e3 sizes, and the query given in another frame (Some(transform)); curved disks also scaled by 1e-6 / 1e5; on every sample: clone, is_solid = true, new_with_options, Mesh::transform far away / there and back, append of and to a mesh without UV map, append of itself, the same append twice -- a mesh that carries a UV map afterwards maps a point of EVERY face to uv and back (no panic)");
     let verbose = std::env::var("VERIF_C20_VERBOSE").is_ok();
     let big = thorough();
     let mut w = Worst { len: 0.0, area: 0.0, fit: 0.0, inv: 0.0, start: 0.0, rt: 0.0 };
